@@ -5,7 +5,7 @@ import session
 import codec as C
 import points
 from oracle import bls as O
-from c07 import sampler_replay, make_stream
+from c07 import sampler_replay, make_stream, boundary_stream
 
 Q, R = O.Q, O.R
 M381 = (1 << 381) - 1
@@ -219,6 +219,10 @@ def worker(sh):
     for (dr, orj) in ([(0, 0), (2, 0), (0, 1), (5, 1)] if sh.index < 4 else []) + [(rng.randrange(2), 0) for _ in range(sh.pick(2, 30))]:
         s = make_stream(rng, dr, orj)
         add('rc.pox.random %s' % s.hex(), 'prand', s)
+    if sh.index < 6:
+        for delta in (0, -1, 1):
+            add('rc.pox.random %s' % boundary_stream(rng, delta).hex(), 'prand', boundary_stream(rng, delta))
+            lines[-1] = 'rc.pox.random %s' % meta[-1][1].hex()
     for k in range(0, sh.pick(4, 40)):
         nrej = k % 7
         v = rng.randrange(Q)
